@@ -126,7 +126,7 @@ func genTransport(g *rand.Rand, tier string) any {
 	case 1:
 		p.Mode = g.IntN(3)
 	case 2:
-		p.Mode = g.IntN(5)
+		p.Mode = g.IntN(6)
 	}
 	if p.Mode == 2 {
 		m := 1 + g.IntN(5)
@@ -609,7 +609,9 @@ func execHTTPTransport(e *Env, p *TransportParams) {
 			return false
 		}
 	}
-	switch p.Mode % 5 {
+	switch p.Mode % 6 {
+	case 5:
+		cancelledReads(e, "http", aToB, lazyB, envsOf(p, true))
 	case 0:
 		roundTrip(e, "http", aToB, lazyB, envsOf(p, true))
 	case 1:
@@ -845,10 +847,19 @@ type lazyRW struct {
 }
 
 func (l lazyRW) Read(ctx context.Context) (*Rpc, error) {
+	// harness code is not instrumented: never leave a choice to Go's own select
+	// (ready and a done context at once), decide it here in a fixed order
 	select {
 	case <-l.ready:
-	case <-ctx.Done():
-		return nil, ctx.Err()
+	default:
+		if err := ctx.Err(); err != nil {
+			return nil, err
+		}
+		select {
+		case <-l.ready:
+		case <-ctx.Done():
+			return nil, ctx.Err()
+		}
 	}
 	return l.get().Read(ctx)
 }
